@@ -157,6 +157,9 @@ func (s *Server) apply(log *proto.RaftLog, index uint64, recovered bool) (interf
 			replica   = log.ShrinkISROp.ReplicaToRemove
 			partition = log.ShrinkISROp.Partition
 		)
+		if s.isStaleISRChange(stream, partition, log.ShrinkISROp.Leader, log.ShrinkISROp.LeaderEpoch, index) {
+			break
+		}
 		if err := s.applyShrinkISR(stream, replica, partition, index); err != nil {
 			return nil, err
 		}
@@ -166,6 +169,16 @@ func (s *Server) apply(log *proto.RaftLog, index uint64, recovered bool) (interf
 			leader    = log.ChangeLeaderOp.Leader
 			partition = log.ChangeLeaderOp.Partition
 		)
+		if p := s.metadata.GetPartition(stream, partition); p != nil && p.GetEpoch() < index && !p.inISR(leader) {
+			// The new leader is selected from the ISR when the change is
+			// proposed, but an ISR change can be committed before it. A
+			// replica which has left the ISR in the meantime must not become
+			// the leader, so the change is dropped, which every server does
+			// alike. The followers will report the leader again.
+			s.logger.Warnf("fsm: Dropping leader change for partition [stream=%s, partition=%d] to %s, "+
+				"replica is not in the ISR", stream, partition, leader)
+			break
+		}
 		if err := s.applyChangePartitionLeader(stream, leader, partition, index); err != nil {
 			return nil, err
 		}
@@ -175,6 +188,9 @@ func (s *Server) apply(log *proto.RaftLog, index uint64, recovered bool) (interf
 			replica   = log.ExpandISROp.ReplicaToAdd
 			partition = log.ExpandISROp.Partition
 		)
+		if s.isStaleISRChange(stream, partition, log.ExpandISROp.Leader, log.ExpandISROp.LeaderEpoch, index) {
+			break
+		}
 		if err := s.applyExpandISR(stream, replica, partition, index); err != nil {
 			return nil, err
 		}
@@ -484,6 +500,27 @@ func (s *Server) applyShrinkISR(stream, replica string, partitionID int32, epoch
 	s.logger.Warnf("fsm: Removed replica %s from ISR for partition [stream=%s, partition=%d]",
 		replica, stream, partitionID)
 	return nil
+}
+
+// isStaleISRChange indicates if an ISR change was requested by a leader that
+// is no longer the partition leader. The request is checked against the
+// current leader and leader epoch when it is proposed, but a leader change can
+// be committed before it. Applying it then would let a deposed leader change
+// the ISR of its successor, e.g. remove the new leader from it. Such a change
+// is dropped, which every server does alike.
+func (s *Server) isStaleISRChange(stream string, partitionID int32, leader string, leaderEpoch, index uint64) bool {
+	partition := s.metadata.GetPartition(stream, partitionID)
+	if partition == nil || leader == "" || partition.GetEpoch() >= index {
+		return false
+	}
+	currentLeader, currentEpoch := partition.GetLeader()
+	if leader == currentLeader && leaderEpoch == currentEpoch {
+		return false
+	}
+	s.logger.Warnf("fsm: Dropping ISR change for partition [stream=%s, partition=%d] requested by %s in "+
+		"leader epoch %d, leader is %s in leader epoch %d",
+		stream, partitionID, leader, leaderEpoch, currentLeader, currentEpoch)
+	return true
 }
 
 // applyExpandISR adds the given replica to the partition and updates the
